@@ -254,6 +254,36 @@ theorem inexpressible_contributes_nothing (i : Instance) (pre post : List Instan
     rw [List.map_append, List.map_cons, List.map_append,
       Fabio.Props.C14.inexpressible_dropped_alone (pre.map regOf) (post.map regOf) h]
 
+/-! ### failing catalog lookups -/
+
+/-- **fault_never_admits_unhealthy.** In a round in which arbitrary catalog lookups fail, every command of the
+text the monitor emits is a command `routecmd.build` produces for an instance that is `Eligible` — registered,
+with a service check, `HealthyAt` — in the registry state that text was built from. A failing lookup can only
+remove a service's commands (`fault_only_removes`), never keep or add one for an instance that is unhealthy in the
+observed state. -/
+theorem fault_never_admits_unhealthy (wf : WellFormed cfg checks catalog) (fails : Str → Bool) (l : Str)
+    (h : l ∈ svcLinesF env pf cfg st strict checks catalog fails) :
+    ∃ i, Eligible st strict checks catalog i ∧ l ∈ cmdsOf env pf cfg i ∧
+      l ∈ svcLines env pf cfg st strict checks catalog := by
+  have hall := fault_only_removes fails keyPair (cmdsOf env pf cfg) cfg.pfx st strict checks catalog l h
+  obtain ⟨name, i, _, hj, hl⟩ :=
+    fault_lines_from_joined fails keyPair (cmdsOf env pf cfg) cfg.pfx st strict checks catalog l h
+  obtain ⟨it, hit, _, _⟩ := Fabio.Props.C14.mem_build.1 hl
+  have hi : i ∈ routed cfg st strict checks catalog := (mem_routed cfg st strict checks catalog i).2 ⟨name, hj⟩
+  exact ⟨i, (routed_iff cfg st strict checks catalog wf i it hit).1 hi, hl, hall⟩
+
+/-- … for every history: a history of rounds is a list of (registry state, failing lookups); `ServiceMonitor`
+keeps no state between rounds (fact `service_monitor_stateless`), so each emitted text depends on its own round
+only, and in every round of every history the statement above holds. -/
+theorem fault_never_admits_unhealthy_history
+    (rounds : List (List Check × (Str → List Instance) × (Str → Bool)))
+    (hwf : ∀ r ∈ rounds, WellFormed cfg r.1 r.2.1) :
+    ∀ r ∈ rounds, ∀ l ∈ svcLinesF env pf cfg st strict r.1 r.2.1 r.2.2,
+      ∃ i, Eligible st strict r.1 r.2.1 i ∧ l ∈ cmdsOf env pf cfg i :=
+  fun r hr l hl =>
+    let ⟨i, he, hc, _⟩ := fault_never_admits_unhealthy env pf cfg st strict r.1 r.2.1 (hwf r hr) r.2.2 l hl
+    ⟨i, he, hc⟩
+
 /-! ### operator commands on top -/
 
 theorem loadTable_ok_iff (s : Str) (t : Table) :
@@ -431,6 +461,11 @@ example : routed cfgW stW false checksW catalogW = [inst "n1" "web-1" "web" "10.
 
 example : svcText envW pfW cfgW stW false checksW catalogW =
     "route add web foo.com/ http://10.0.0.1:8000/ tags \"v1\"".toList := by decide
+
+/-- a failing lookup of `web` removes the service's command; a failing lookup of another name changes nothing -/
+example : svcLinesF envW pfW cfgW stW false checksW catalogW (fun n => n == "web".toList) = [] ∧
+    svcLinesF envW pfW cfgW stW false checksW catalogW (fun n => n == "db".toList) =
+      svcLines envW pfW cfgW stW false checksW catalogW := by decide
 
 /-- the table built from it has exactly that target under (foo.com, /) -/
 example : (loadTable envW pfW (svcText envW pfW cfgW stW false checksW catalogW)).toOption.map
